@@ -16,7 +16,7 @@ def triples(case, res):
             k += 1
 
 
-OBS = [["observe"], ["jac_quiet"], ["tables"]]
+OBS = [["observe"], ["jac_quiet"], ["tables"], ["svd"]]
 
 
 def observe_at(rng, c, nsets=2):
